@@ -51,6 +51,7 @@ def case_linear(case):
     levels = [1, 4, len(z) - 1]
     modes = sl.resolve_modes(case["modes"], nx, ny, dom, case["halo"])
     prec = case["prec"]
+    sl.pollute(*sl.padded_size(nx, ny, dom, case["halo"])[:2], dom[0] / nx, dom[1] / ny)
     tol = 1e-9 if prec == "double" else 2e-5
     kw = dict(modes=modes, halo=case["halo"], precision=prec, analytic=case["analytic"])
     cnt = [0]
@@ -95,6 +96,22 @@ def case_linear(case):
             want = a * R[n1] + b * R[n2]
             sc = abs(a) * np.abs(R[n1]).max() + abs(b) * np.abs(R[n2]).max()
             cmp("additivity", S(a * fl[n1] + b * fl[n2], a * C[n1] + b * C[n2]), want, "S(%g*%s%+g*%s) vs combination" % (a, n1, b, n2), extra_scale=sc)
+    # sources whose sum is EXACTLY zero (nothing emitted on balance, or nothing at all) still carry the background at every level
+    dip = np.zeros((ny, nx))
+    dip[1, 2], dip[ny - 2, nx - 3] = 1.5, -1.5
+    for zname, zq in (("all-zero", np.zeros((ny, nx))), ("dipole", dip)):
+        base0 = S(zq, 0.0)
+        for c in (2.5, -4.0):
+            r = S(zq, c)
+            cmp("background-zero-sum", r[0] - base0[0], np.full_like(base0[0], c), "conc(bg=%g)-conc(bg=0) for the %s source vs uniform offset" % (c, zname), extra_scale=abs(c))
+            cmp("background-zero-sum", r[1], base0[1], "flux of the %s source with background %g vs without" % (zname, c), extra_scale=max(np.abs(base0[1]).max(), 1e-30))
+    # one preallocated source map refilled in place: f(2q) must still be 2 f(q)
+    buf = fl["random"].copy()
+    r1 = S(buf, 0.0)
+    buf *= 2.0
+    cmp("in-place-reuse", S(buf, 0.0), 2.0 * r1, "same ndarray refilled in place with 2q vs 2*S(q)")
+    buf[...] = fl["smooth"]
+    cmp("in-place-reuse", S(buf, 2.5), R["smooth"] if C["smooth"] == 2.5 else S(fl["smooth"].copy(), 2.5), "same ndarray refilled in place with another field")
     # background: uniform offset, flux untouched
     for n in names:
         base = S(fl[n], 0.0)
